@@ -16,6 +16,12 @@ _check_posterior  vs  Model/C15_MAP.v.
  * op=optng   the real optimiser on smooth log-concave non-Gaussian posteriors: route decision in Coq, maximality by
               the oracle only
  * op=optns   the same on NON-smooth log-concave priors (Laplace, LMRF): finding ..|nonsmooth-prior:bfgs-finite-differences
+ * op=disp    (round 5) the optimiser route observed at the SciPy boundary of cuqi/solver/_solver.py under scripted answers:
+              routine / method / gradient mode / start point / returned point and success flag  vs  Model/C15_Opt.v entry_calls, opt_entry
+ * op=select  (round 5) sample_posterior run for real under scripted normals: which _sample* method ran and, on the direct
+              route, offset and factor of the draws  vs  sample_posterior_entry (selection + law in one function)
+ * opt cells additionally evaluate check_opt_stop (SciPy's stopping test with the exact gradient, curvature certificate, distance
+   bound) and optng cells check_curvature (+ monotonicity of the implementation's gradient field, prior formulas: oracle)
 
 The independent oracle states the property itself: exact posterior mean / covariance in Fractions (precision form,
 own Gauss-Jordan), the posterior's own logd in a neighbourhood of the returned point and its gradient there.
@@ -25,7 +31,7 @@ from fractions import Fraction
 import numpy as np
 from common import *
 
-IMPORTS = ("From CV Require Import Base.Cmp Base.QcLin Model.C15_MAP.\n"
+IMPORTS = ("From CV Require Import Base.Cmp Base.QcLin Model.C15_MAP Model.C15_Opt.\n"
            "From Coq Require Import QArith.")
 RULE = ("linear-Gaussian problems with dyadic data, m,n<=4 (quick) / <=6 (thorough): model form (dense, function, scipy-sparse) x "
         "geometry (default, Continuous1D/Discrete, StepExpansion with function model) x noise and prior covariance form (scalar, "
@@ -1615,7 +1621,26 @@ def case_opt(cuqi, meta):
                                                           c_gdesc(ge_exact, m), c_gdesc(gx_exact, n), cqvec(x.tolist()))
     else:
         expr = "check_opt_ml %s %s %s %s %s %s" % (cnat(m), cnat(n), cqmat(A_eff.tolist()), cqvec(meta["b"]), c_gdesc(meta["ce"], m), cqvec(x.tolist()))
-    return Case(expr=expr, meta=meta, cell="opt/%s/%s/Ce:%s,Cx:%s/x0:%s" % (which, meta["force"], meta["ce"]["kind"], meta["cx"]["kind"], "given" if meta.get("x0") else "default"),
+    # round 5: SciPy's stopping test at the returned point with the model's EXACT gradient, the curvature bound H >= mu I decided by the
+    # model's certificate, and the distance bound of C15_stopping_test_distance -- only where SciPy was given exact gradients and
+    # reports success (with finite differences its test is on the approximate gradient)
+    stop = bool(spy.ran and getattr(spy, "gradfunc", None) is not None and r.info.get("success"))
+    if stop:
+        if which == "MAP":
+            expr += " && check_opt_stop false %s %s %s %s %s %s %s (1 # 4) %s" % (cnat(m), cnat(n), cqmat(A_eff.tolist()), cqvec(meta["b"]), cqvec(full_x0_float(meta, n)),
+                                                                            c_gdesc(ge_exact, m), c_gdesc(gx_exact, n), cqvec(x.tolist()))
+        else:
+            expr += " && check_opt_stop true %s %s %s %s %s %s %s (1 # 4) %s" % (cnat(m), cnat(n), cqmat(A_eff.tolist()), cqvec(meta["b"]), cqvec([0.0] * n),
+                                                                           c_gdesc(meta["ce"], m), c_gdesc(meta["ce"], m), cqvec(x.tolist()))
+        if fail is None:
+            try:
+                gx_ = np.asarray(density.gradient(x), dtype=float)
+                if np.max(np.abs(gx_)) > 1.01e-5:
+                    fail = "%s: SciPy reports success but the gradient at the returned point has max-norm %.3g > gtol 1e-5" % (which, np.max(np.abs(gx_)))
+            except (NotImplementedError, AttributeError):
+                pass
+    return Case(expr=expr, meta=meta, cell="opt/%s/%s/Ce:%s,Cx:%s/x0:%s%s" % (which, meta["force"], meta["ce"]["kind"], meta["cx"]["kind"], "given" if meta.get("x0") else "default",
+                                                                            "/stop-test" if stop else ""),
                 kind="EXACT", impl_fail=fail, signature=SIG_OPT if fail else "")
 
 
@@ -2172,8 +2197,373 @@ def case_optng(cuqi, meta):
                                           cnat(DCLS.index(meta["lik"])), cbool(meta["linear"]), cnat(meta["m"]), cnat(meta["n"]), cbool(has_grad))
     expr = "check_routes %s %s %s %s" % (P, cnat(2000), cbool(r.info.get("solver") == "direct"), "false")
     sig = SIG_NONSMOOTH if meta["op"] == "optns" else SIG_OPT
+    # round 5: the curvature hypothesis of C15_gauss_plus_concave_maximiser on this instance.  mu = a dyadic number below the smallest
+    # eigenvalue of A^T Pe A (noise covariance 0.5 I as built by build_classes); the MODEL certifies A^T Pe A - mu I >= 0 exactly, the
+    # oracle tests the conclusion (6) of the theorem on the implementation's own gradient field near the returned point:
+    # (g(u) - g(v)).(u - v) <= -mu |u - v|^2  -- a log-concave prior can only add to the left-hand side's decrease
+    A = np.array(meta["A"], dtype=float)
+    lam = float(np.min(np.linalg.eigvalsh(A.T @ A / 0.5))) if A.shape[0] >= A.shape[1] else 0.0
+    mu = math.floor(0.9 * lam * 64) / 64.0
+    if meta["op"] == "optng" and mu > 0:
+        expr += " && check_curvature %s %s %s %s %s" % (cnat(meta["m"]), cnat(meta["n"]), cqmat(meta["A"]),
+                                                       c_gdesc({"param": "cov", "kind": "scalar", "val": 0.5}, meta["m"]), cq(mu))
+        if fail is None and has_grad:
+            rs = np.random.RandomState(5)
+            for k in range(8):
+                u = x + rs.standard_normal(len(x)) * 10.0 ** (-(k % 4))
+                v = x + rs.standard_normal(len(x)) * 10.0 ** (-(k % 4))
+                lhs = float(np.dot(np.asarray(BP.posterior.gradient(u), dtype=float) - np.asarray(BP.posterior.gradient(v), dtype=float), u - v))
+                if lhs > -mu * float(np.dot(u - v, u - v)) * (1 - 1e-9) + 1e-12:
+                    fail = "posterior gradient field is not strongly monotone with the certified modulus %.4g: (g(u)-g(v)).(u-v) = %.6g > -mu|u-v|^2 = %.6g at u=%s v=%s" % (
+                        mu, lhs, -mu * float(np.dot(u - v, u - v)), u.tolist(), v.tolist())
+                    break
+            if fail is None:
+                g = np.asarray(BP.posterior.gradient(x), dtype=float)
+                xr = np.array(x, dtype=float)
+                import scipy.optimize as so
+                res = so.minimize(lambda z: -float(BP.posterior.logd(z)), xr, jac=lambda z: -np.asarray(BP.posterior.gradient(z), dtype=float), method="BFGS", options={"gtol": 1e-11})
+                gr = np.asarray(BP.posterior.gradient(res.x), dtype=float)
+                # both points lie within |grad| / mu of the unique maximiser (C15_gauss_plus_concave_maximiser (3)): triangle inequality
+                if np.linalg.norm(res.x - x) > (np.linalg.norm(g) + np.linalg.norm(gr)) / mu * (1 + 1e-6) + 1e-12:
+                    fail = "returned point %s and the refined point %s are further apart (%.3g) than (|grad|+|grad_ref|)/mu = %.3g allows" % (
+                        x.tolist(), res.x.tolist(), np.linalg.norm(res.x - x), (np.linalg.norm(g) + np.linalg.norm(gr)) / mu)
+    if meta["op"] == "optng" and fail is None:
+        fail = prior_formula_fail(BP, meta, x)
     return Case(expr=expr, meta=meta, cell="%s/%s" % (meta["op"], meta["prior"]), kind="DECISION", impl_fail=fail, signature=sig if fail else "")
 
+
+def prior_formula_fail(BP, meta, x):
+    """the log-priors C15_prior_classes_concave speaks about are the ones that run: differences of prior.logd and prior.gradient against
+    the formulas written down here (SmoothedLaplace(0, 0.5, 0.01): -sum sqrt(u_i^2 + beta)/scale; GMRF(0, 2.0), zero boundary, order 1:
+    -(prec/2) |D u|^2 with D u = (u_0, u_1 - u_0, ..., -u_{n-1}))"""
+    n = meta["n"]
+    rs = np.random.RandomState(9)
+    for k in range(4):
+        u = np.asarray(x, dtype=float) + rs.standard_normal(n) * 10.0 ** (-k)
+        v = np.asarray(x, dtype=float) + rs.standard_normal(n) * 10.0 ** (-k)
+        if meta["prior"] == "Other":
+            scale, beta = 0.5, 0.01
+            h = lambda z: -float(np.sum(np.sqrt(z ** 2 + beta) / scale))
+            gh = lambda z: -z / (scale * np.sqrt(z ** 2 + beta))
+        elif meta["prior"] == "GMRF":
+            prec = 2.0
+            D = lambda z: np.diff(np.concatenate([[0.0], z, [0.0]]))
+            h = lambda z: -0.5 * prec * float(np.dot(D(z), D(z)))
+            gh = lambda z: prec * np.diff(D(z))
+        else:
+            return None
+        d_impl = float(BP.prior.logd(u)) - float(BP.prior.logd(v))
+        if abs(d_impl - (h(u) - h(v))) > 1e-9 * (1 + abs(d_impl)):
+            return "prior %s: logd(u) - logd(v) = %.12g but the formula the concavity theorem is about gives %.12g (u=%s, v=%s)" % (
+                meta["prior"], d_impl, h(u) - h(v), u.tolist(), v.tolist())
+        g_impl = np.asarray(BP.prior.gradient(u), dtype=float)
+        if np.max(np.abs(g_impl - gh(u))) > 1e-9 * (1 + np.max(np.abs(g_impl))):
+            return "prior %s: gradient %s at %s, formula %s" % (meta["prior"], g_impl.tolist(), u.tolist(), gh(u).tolist())
+    return None
+
+
+
+# ---------------------------------------------------------------------------------------------------------
+# op = disp : the optimiser route observed at the SciPy boundary (round 5)
+# ---------------------------------------------------------------------------------------------------------
+POLISH = [False]        # state of fixes/C15_nonsmooth_polish.diff on the tree under test (probed in run)
+SIG_DISP = "BayesianProblem._solve_max_point|dispatch"
+
+
+def probe_polish(cuqi):
+    """the proposed polish is in the tree iff the non-smooth witness ends within 1e-6 of the maximum"""
+    try:
+        BP = build_classes(cuqi, WITNESS_NONSMOOTH)
+        x = np.asarray(quiet(BP.MAP), dtype=float)
+        return bool(float(BP.posterior.logd(np.zeros(2))) - float(BP.posterior.logd(x)) <= 1e-6)
+    except Exception:
+        return False
+
+
+class _ScipyScript:
+    """replaces what cuqi/solver/_solver.py sees as scipy.optimize (name `opt`) and as fmin_l_bfgs_b by recorders that
+    answer from a script; nothing in scipy itself is touched"""
+    METHODS = {None: 0, "Nelder-Mead": 1, "Powell": 2}
+
+    def __init__(self, cuqi, answers):
+        self.mod, self.answers, self.calls, self.extra = cuqi.solver._solver, list(answers), [], []
+
+    def _next(self):
+        if not self.answers:
+            raise RuntimeError("more SciPy calls than scripted answers")
+        return self.answers.pop(0)
+
+    def __enter__(self):
+        import scipy.optimize as so
+        spy = self
+        real = self.mod.opt
+
+        class Shim:
+            def __getattr__(self2, name):
+                return getattr(real, name)
+
+            def minimize(self2, func, x0, *args, **kw):
+                jac, method = kw.pop("jac", None), kw.pop("method", None)
+                spy.calls.append((0, spy.METHODS.get(method, 9), jac is not None, False, [float(v) for v in np.asarray(x0, dtype=float).ravel()]))
+                spy.extra.append((args, sorted(kw)))
+                pt, flag = spy._next()
+                return so.OptimizeResult(x=np.array(pt, dtype=float), success=(flag == 0), message="scripted", fun=0.0, jac=None, nit=0, nfev=0, status=flag)
+
+        def lbfgsb(func, x0, *args, **kw):
+            fprime, approx = kw.pop("fprime", None), kw.pop("approx_grad", 0)
+            spy.calls.append((1, 0, fprime is not None, bool(approx), [float(v) for v in np.asarray(x0, dtype=float).ravel()]))
+            spy.extra.append((args, sorted(kw)))
+            pt, flag = spy._next()
+            return np.array(pt, dtype=float), 0.0, {"warnflag": flag, "task": "scripted", "grad": np.zeros(len(pt)), "nit": 0, "funcalls": 0}
+        self.saved = (self.mod.opt, self.mod.fmin_l_bfgs_b)
+        self.mod.opt, self.mod.fmin_l_bfgs_b = Shim(), lbfgsb
+        return self
+
+    def __exit__(self, *a):
+        self.mod.opt, self.mod.fmin_l_bfgs_b = self.saved
+
+
+def c_call(c):
+    return "(%s, %s, %s, %s, %s)" % (cnat(c[0]), cnat(c[1]), cbool(c[2]), cbool(c[3]), cqvec(c[4]))
+
+
+def case_disp(cuqi, meta):
+    """which SciPy routine runs, with which gradient mode and start point, for which problem class; what MAP / ML make of the
+    scripted answer (success or failure).  Independent table: expected_gradient / prior class / dims, written from meta alone."""
+    which, n, m = meta["which"], meta["n"], meta["m"]
+    old = cuqi.config.MAX_DIM_INV
+    cuqi.config.MAX_DIM_INV = meta["max_dim_inv"]
+    raised = None
+    try:
+        BP = build_classes(cuqi, meta)
+        x0 = None if meta["x0"] is None else np.array(meta["x0"], dtype=float)
+        with _ScipyScript(cuqi, meta["answers"]) as spy:
+            try:
+                r = quiet(getattr(BP, which), x0=x0) if x0 is not None else quiet(getattr(BP, which))
+            except Exception as e:
+                raised, r = repr(e)[:200], None
+    finally:
+        cuqi.config.MAX_DIM_INV = old
+    g_dens = expected_gradient(meta, which)                 # does the density handed to the solver have a gradient
+    g_post = expected_gradient(meta, "MAP")                 # does the posterior have one (decides L-BFGS-B for CMRF)
+    probe = 0 if g_dens else 1
+    if meta["lik"] != "Gaussian":
+        # non-Gaussian likelihoods: the outcome of the gradient probe is OBSERVED by the same call made here, outside MAP / ML
+        # (a Cauchy likelihood raises TypeError today: its gradient() lacks the conditioning argument); the model then says what
+        # the entry point must do given that outcome
+        density = BP.posterior if which == "MAP" else BP.likelihood
+        try:
+            density.gradient(np.ones(n) if meta["x0"] is None else np.array(meta["x0"], dtype=float))
+            probe = 0
+        except (NotImplementedError, AttributeError):
+            probe = 1
+        except Exception:
+            probe = 2
+        g_dens = probe == 0
+        g_post = observe_has_grad_safe(BP)
+    lin_gauss = which == "MAP" and meta["prior"] == "Gaussian" and meta["lik"] == "Gaussian" and meta["linear"] \
+        and n <= meta["max_dim_inv"] and m <= meta["max_dim_inv"]
+    start = [1.0] * n if meta["x0"] is None else [float(v) for v in meta["x0"]]
+    fail = None
+    calls = spy.calls
+    if raised is not None:
+        point, success, label, returned = [], False, 2, False
+    else:
+        point, success, label, returned = [float(v) for v in np.asarray(r, dtype=float).ravel()], bool(r.info.get("success")), label_of(r.info), True
+    if lin_gauss:
+        if calls:
+            fail = "%s of a small linear-Gaussian problem ran an optimiser (%d SciPy calls) instead of the closed form" % (which, len(calls))
+    elif raised is not None:
+        pass        # a refusal is never "another point"; unless the gradient probe raises the model (faithful: a value is returned) disagrees
+    elif probe == 2:
+        pass        # a value although the probe raises: the model (ERaised) disagrees as a DECISION; the point itself may well be right
+    elif not calls:
+        fail = "%s returned %s without any SciPy call although no closed form applies (prior %s, linear=%s, dims (%d,%d), MAX_DIM_INV=%d)" % (
+            which, point, meta["prior"], meta["linear"], m, n, meta["max_dim_inv"])
+    else:
+        want_routine = 1 if (meta["prior"] == "CMRF" and g_post) else 0
+        c0 = calls[0]
+        used = meta["answers"][len(calls) - 1]
+        if c0[0] != want_routine or c0[1] != 0:
+            fail = "%s: first SciPy call is %s(method code %d) for prior %s (posterior gradient: %s)" % (which, ["minimize", "fmin_l_bfgs_b"][c0[0]], c0[1], meta["prior"], g_post)
+        elif c0[2] != g_dens or (c0[0] == 1 and c0[3] != (not g_dens)):
+            fail = "%s: gradient handed to SciPy=%s approx_grad=%s, but the density %s a gradient" % (which, c0[2], c0[3], "has" if g_dens else "has not")
+        elif c0[4] != start:
+            fail = "%s: SciPy was started at %s, expected %s" % (which, c0[4], start)
+        elif spy.extra[0] != ((), []):
+            fail = "%s: unexpected extra arguments to SciPy: %s" % (which, spy.extra[0])
+        elif point != [float(v) for v in used[0]] or success != (used[1] == 0):
+            fail = "%s returned %s (success=%s), SciPy's last answer was %s (status %d): the estimate is not the solver's point" % (which, point, success, used[0], used[1])
+        elif label != 1:
+            fail = "%s: info['solver'] = %r on the optimiser route" % (which, r.info.get("solver"))
+    P = "(mk_pinfo %s %s %s %s %s %s)" % (cnat(DCLS.index(meta["prior"])), cnat(DCLS.index(meta["lik"])), cbool(meta["linear"]), cnat(m), cnat(n), cbool(g_post))
+    answers = clist(["(%s, %s)" % (cqvec(a[0]), cnat(a[1])) for a in meta["answers"]])
+    expr = "check_dispatch %s %s %s %s %s %s %s %s %s %s %s %s" % (
+        cbool(which == "ML"), cbool(POLISH[0]), P, cnat(meta["max_dim_inv"]), cnat(probe), copt(meta["x0"], cqvec), answers,
+        clist([c_call(c) for c in calls]), cbool(returned), cqvec(point), cbool(success), cnat(label))
+    return Case(expr=expr, meta=meta, cell="disp/%s/%s%s,%s/%s/x0:%s/answer:%s" % (
+        which, meta["prior"], "" if meta["lik"] == "Gaussian" else "+" + meta["lik"] + "-lik", "linear" if meta["linear"] else ("general" if meta.get("model_grad", True) else "general-nograd"), meta["dimcls"],
+        "given" if meta["x0"] is not None else "default", meta["anscls"]), kind="DECISION", impl_fail=fail, signature=SIG_DISP if fail else "")
+
+
+def gen_disp_metas(ctx):
+    rng = ctx.rng
+    out = []
+    k = 0
+    for prior in ["Gaussian", "GMRF", "LMRF", "CMRF", "Laplace", "Cauchy"]:
+        for linear, mg in [(True, True), (False, True), (False, False)]:
+            for which in ("MAP", "ML"):
+                for anscls, flags in (("success", (0, 0, 0)), ("failure", (2, 1, 0)), ("failure-twice", (1, 2, 2))):
+                    m, n = rng.choice([(2, 3), (3, 2), (3, 3)])
+                    dimcls, mdi = [("normal", 2000), ("equal", max(m, n)), ("below", max(m, n) - 1)][(k // 3 + k) % 3]
+                    k += 1
+                    out.append({"op": "disp", "prior": prior, "lik": "Gaussian", "linear": linear, "model_grad": mg, "which": which, "m": m, "n": n,
+                                "A": gen_A(rng, m, n), "b": [dy(rng) for _ in range(m)], "x0": [dy(rng) for _ in range(n)] if k % 2 else None,
+                                "max_dim_inv": mdi, "dimcls": dimcls, "anscls": anscls,
+                                "answers": [[[dy(rng) for _ in range(n)], f] for f in flags]})
+    for lik in ("Cauchy", "Laplace"):
+        for prior in ("Gaussian", "Laplace", "CMRF"):
+            for which in ("MAP", "ML"):
+                for anscls, flags in (("success", (0, 0, 0)), ("failure", (2, 1, 0))):
+                    m, n = rng.choice([(2, 3), (3, 2), (3, 3)])
+                    k += 1
+                    out.append({"op": "disp", "prior": prior, "lik": lik, "linear": True, "model_grad": True, "which": which, "m": m, "n": n,
+                                "A": gen_A(rng, m, n), "b": [dy(rng) for _ in range(m)], "x0": [dy(rng) for _ in range(n)] if k % 2 else None,
+                                "max_dim_inv": 2000, "dimcls": "normal", "anscls": anscls,
+                                "answers": [[[dy(rng) for _ in range(n)], f] for f in flags]})
+    return out
+
+
+def observe_has_grad_safe(BP):
+    try:
+        BP.posterior.gradient(np.zeros(BP.posterior.dim))
+        return True
+    except Exception:
+        return False
+
+
+# ---------------------------------------------------------------------------------------------------------
+# op = select : sample_posterior as one function -- which sampler, and on the direct route the law of the draws (round 5)
+# ---------------------------------------------------------------------------------------------------------
+SIG_SELECT = "BayesianProblem.sample_posterior|selection"
+
+
+def case_select(cuqi, meta):
+    BPcls = cuqi.problem.BayesianProblem
+    m, n = meta["m"], meta["n"]
+    old = cuqi.config.MAX_DIM_INV
+    cuqi.config.MAX_DIM_INV = meta["max_dim_inv"]
+    taken, X = [], None
+    try:
+        BP = build_select(cuqi, meta)
+        sptm = hasattr(BP.prior, "sqrtprecTimesMean")
+        lsq = hasattr(BP.likelihood.distribution, "sqrtprec")
+        zs = [np.zeros(n)] + [np.eye(n)[i] for i in range(n)]
+        count = [0]
+
+        def script(kind, a, k, idx):
+            if kind == "randn":
+                count[0] += 1
+                return zs[min(count[0] - 1, len(zs) - 1)].copy()
+            return None
+        real_direct = BPcls._sampleMapCholesky
+
+        def direct(self, *a, **k):
+            taken.append("_sampleMapCholesky")
+            return real_direct(self, *a, **k)
+        patches = {nm: (lambda self, *a, _nm=nm, **k: taken.append(_nm)) for nm in SAMPLERS if nm != "_sampleMapCholesky"}
+        patches["_sampleMapCholesky"] = direct
+        with _Patch(BPcls, **patches):
+            with ScriptedRandom(seed=1, script=script):
+                try:
+                    S = quiet(BP.sample_posterior, n + 1, **(meta.get("sargs") or {}))
+                    if taken == ["_sampleMapCholesky"]:
+                        X = np.array(S.samples, dtype=float)
+                except NotImplementedError:
+                    taken.append("NotImplementedError")
+    finally:
+        cuqi.config.MAX_DIM_INV = old
+    order = ["_sampleGibbs", "_sampleMapCholesky", "_sampleLinearRTO", "_sampleUGLA", "_sampleNUTS", "_samplepCN",
+             "_sampleRegularizedLinearRTO", "NotImplementedError"]
+    idx = order.index(taken[0]) if len(taken) == 1 and taken[0] in order else 99
+    lin_gauss = meta["prior"] == "Gaussian" and meta["lik"] == "Gaussian" and meta["linear"] and n <= meta["max_dim_inv"] and m <= meta["max_dim_inv"]
+    fail = None
+    mu_l, L_l = [], []
+    if (idx == 1) != lin_gauss:
+        fail = "sample_posterior took %s for prior=%s lik=%s linear=%s dims (%d,%d) MAX_DIM_INV=%d: the direct Gaussian route is for exactly the small linear-Gaussian problems" % (
+            taken, meta["prior"], meta["lik"], meta["linear"], m, n, meta["max_dim_inv"])
+    elif idx == 99:
+        fail = "sample_posterior dispatched to %s" % (taken,)
+    elif idx == 1:
+        if X is None or X.shape != (n, n + 1) or not np.all(np.isfinite(X)):
+            fail = "the direct route handed back %s" % (None if X is None else X.shape,)
+        else:
+            mu = X[:, 0]
+            L = X[:, 1:n + 1] - mu[:, None]
+            L = np.where(np.abs(L) < 1e-300, 0.0, L)
+            A = [[F(v) for v in row] for row in meta["A"]]
+            mean, C, H = posterior_exact(A, [F(v) for v in meta["b"]], full_x0(meta, n), intended_cov(meta["ce"], m), intended_cov(meta["cx"], n))
+            Cn = np.array([[float(v) for v in r] for r in C])
+            if not close_v(mu, mean):
+                fail = "offset of the direct draws %s is not the posterior mean %s" % (mu, [float(v) for v in mean])
+            elif not np.allclose(L @ L.T, Cn, rtol=1e-7, atol=1e-7):
+                fail = "covariance L L^T of the direct draws differs from the posterior covariance (max diff %.3g)" % np.max(np.abs(L @ L.T - Cn))
+            mu_l, L_l = mu.tolist(), L.tolist()
+    # independent table: the posterior has a gradient iff prior, likelihood (a Laplace likelihood has none) and model have one
+    has_grad = (expected_gradient(meta, "MAP") and meta["lik"] == "Gaussian") if meta["prior"] in PRIOR_HAS_GRAD else observe_has_grad(BP)
+    P = "(mk_pinfo %s %s %s %s %s %s)" % (cnat(DCLS.index(meta["prior"])), cnat(DCLS.index(meta["lik"])), cbool(meta["linear"]), cnat(m), cnat(n), cbool(has_grad))
+    sargs = meta.get("sargs") or {}
+    expr = "check_sample_entry true false %s %s %s %s %s %s %s %s %s %s %s %s %s %s" % (
+        P, cbool(sptm), cbool(lsq), cnat(meta["max_dim_inv"]), cbool(bool(sargs.get("experimental"))), copt(sargs.get("Nb"), cnat),
+        cqmat(meta["A"]), cqvec(meta["b"]), cqvec(model_x0(meta, n)), c_gdesc(meta["ce"], m), c_gdesc(meta["cx"], n),
+        cnat(idx), cqvec(mu_l), cqmat(L_l))
+    return Case(expr=expr, meta=meta, cell="select/%s,%s,%s/%s/Ce:%s,Cx:%s/args:%s" % (
+        meta["prior"], meta["lik"], "linear" if meta["linear"] else "general", meta["dimcls"], meta["ce"]["kind"], meta["cx"]["kind"],
+        ",".join(sorted(sargs)) or "none"), kind="EXACT", impl_fail=fail, signature=SIG_SELECT if fail else "")
+
+
+def build_select(cuqi, meta):
+    """linear-Gaussian data (A, b, mean, ce, cx as in the closed-form cells) under the requested prior / model classes"""
+    D = cuqi.distribution
+    m, n = meta["m"], meta["n"]
+    A = np.array(meta["A"], dtype=float)
+    model = cuqi.model.LinearModel(A) if meta["linear"] else cuqi.model.Model(lambda x: A @ x, m, n, gradient=lambda direction, wrt: A.T @ direction)
+    if meta["prior"] == "Gaussian":
+        x = build_gaussian(cuqi, np.array(full_x0_float(meta, n)), meta["cx"])
+    elif meta["prior"] == "GMRF":
+        x = D.GMRF(np.zeros(n), 2.0)
+    elif meta["prior"] == "LMRF":
+        x = D.LMRF(0, 0.5, geometry=n)
+    else:
+        x = D.Laplace(np.zeros(n), 0.5)
+    arg = (model @ x) if meta["linear"] else model(x)
+    y = build_gaussian(cuqi, arg, meta["ce"]) if meta["lik"] == "Gaussian" else D.Laplace(arg, 0.5)
+    x.name, y.name = "x", "y"
+    return cuqi.problem.BayesianProblem(y, x).set_data(y=np.array(meta["b"], dtype=float))
+
+
+def full_x0_float(meta, n):
+    return [float(v) for v in full_x0(meta, n)]
+
+
+def gen_select_metas(ctx):
+    rng = ctx.rng
+    out = []
+    k = 0
+    for (ke, kx) in [("scalar", "scalar"), ("matrix", "matrix"), ("vector", "matrix"), ("matrix", "vector")]:
+        for (m, n) in [(2, 3), (3, 2), (3, 3)]:
+            for dimcls in ("normal", "equal", "below"):
+                for prior, lik, linear in ([("Gaussian", "Gaussian", True)] if dimcls != "normal" else
+                                           [("Gaussian", "Gaussian", True), ("Gaussian", "Gaussian", False), ("GMRF", "Gaussian", True),
+                                            ("LMRF", "Gaussian", True), ("Laplace", "Gaussian", True), ("Gaussian", "Laplace", True)]):
+                    c = dict(m=m, n=n, ke=ke, kx=kx, pe="cov", px="cov", model="dense", geom="default", mean="vec")
+                    meta = instantiate(rng, c, "sample")
+                    mdi = {"normal": 2000, "equal": max(m, n), "below": max(m, n) - 1}[dimcls]
+                    sargs = [{}, {"Nb": 0}, {"experimental": True}, {"Nb": 2, "experimental": True}][k % 4]
+                    k += 1
+                    meta.update(op="select", m=m, n=n, prior=prior, lik=lik, linear=linear, max_dim_inv=mdi, dimcls=dimcls, sargs=sargs)
+                    out.append(meta)
+    return out
 
 # ---------------------------------------------------------------------------------------------------------
 # run
@@ -2202,6 +2592,10 @@ def dispatch(cuqi, meta, fixed, cell=""):
         return case_ccov(cuqi, meta)
     if op == "sprec":
         return case_sprec(cuqi, meta)
+    if op == "disp":
+        return case_disp(cuqi, meta)
+    if op == "select":
+        return case_select(cuqi, meta)
     if op in ("life", "composite", "sprior", "sample1"):
         return {"life": case_life, "composite": case_composite, "sprior": case_sprior, "sample1": case_sample1}[op](cuqi, meta)
     raise ValueError(op)
@@ -2499,6 +2893,12 @@ def run(ctx):
         cases.append(safe(case_optng, cuqi, meta))
     for meta in gen_optns_metas(ctx):
         cases.append(safe(case_optng, cuqi, meta))
+    POLISH[0] = probe_polish(cuqi)
+    ctx.note("state of fixes/C15_nonsmooth_polish.diff (derivative-free polish after a failed finite-difference run): applied=%s" % POLISH[0])
+    for meta in gen_disp_metas(ctx):
+        cases.append(safe(case_disp, cuqi, meta))
+    for meta in gen_select_metas(ctx):
+        cases.append(safe(case_select, cuqi, meta))
     return Result(cases=cases, rule=RULE, extra={"repair_state_fixed": fixed},
                   assumptions=["numpy.linalg.solve / inv are modelled by an exact Gauss-Jordan over Qc whose result is checked (M z = b, M X = X M = I) before use; "
                                "observed floats are compared with the exact value to 1e-8 relative (condition numbers of the generated systems < 2e3)",
@@ -2511,6 +2911,7 @@ def oracle(ctx, meta):
     import cuqi
     bad_noise, _, _, _ = probe_fixed(cuqi)
     GEOM_FIXED[0] = probe_geom_fixed(cuqi)
+    POLISH[0] = probe_polish(cuqi)
     c = dispatch(cuqi, meta, not bad_noise)
     return c.impl_fail
 
@@ -2524,7 +2925,7 @@ def classify(meta, detail):
         return classify_map(meta, len(A), len(A[0]))
     if op == "sample" and meta.get("geom") in NONID:
         return SIG_NONLIN if meta.get("geom") == "mapped_sq" else SIG_GEOM
-    return {"sample": SIG_SAMPLE, "route": SIG_ROUTE, "cascade": SIG_ROUTE, "handover": SIG_ROUTE, "setup": SIG_SETUP, "opt": SIG_OPT, "optng": SIG_OPT, "optns": SIG_NONSMOOTH, "ml": SIG_ML, "ccov": SIG_CCOV, "sprec": SIG_CCOV, "sprior": SIG_SPRIOR, "sample1": SIG_SAMPLE, "life": SIG_OTHER, "composite": SIG_OTHER}.get(op, "C15")
+    return {"sample": SIG_SAMPLE, "route": SIG_ROUTE, "cascade": SIG_ROUTE, "handover": SIG_ROUTE, "setup": SIG_SETUP, "opt": SIG_OPT, "optng": SIG_OPT, "optns": SIG_NONSMOOTH, "ml": SIG_ML, "ccov": SIG_CCOV, "sprec": SIG_CCOV, "sprior": SIG_SPRIOR, "sample1": SIG_SAMPLE, "life": SIG_OTHER, "composite": SIG_OTHER, "disp": SIG_DISP, "select": SIG_SELECT}.get(op, "C15")
 
 
 def search(ctx):
@@ -2551,6 +2952,7 @@ def replay(ctx, meta):
     bad_noise, _, _, _ = probe_fixed(cuqi)
     fixed = not bad_noise
     GEOM_FIXED[0] = probe_geom_fixed(cuqi)
+    POLISH[0] = probe_polish(cuqi)
     c = dispatch(cuqi, m, fixed)
     print("repair state: fixed=%s" % fixed)
     if m.get("op") == "map":
